@@ -10,6 +10,7 @@ mod c12;
 mod c13;
 mod c14;
 mod c16;
+mod c17;
 mod c19;
 mod c20;
 mod evprog;
@@ -46,6 +47,7 @@ fn main() {
             "c13" => c13::replay(case),
             "c14" => c14::replay(case),
             "c16" => c16::replay(case),
+            "c17" => c17::replay(case),
             "c19" => c19::replay(case),
             "c20" => c20::replay(case),
             other => {
@@ -70,6 +72,7 @@ fn main() {
         "c13" => c13::cmd(&args),
         "c14" => c14::cmd(&args),
         "c16" => c16::cmd(&args),
+        "c17" => c17::cmd(&args),
         "c19" => c19::cmd(&args),
         "c20" => c20::cmd(&args),
         other => {
